@@ -47,11 +47,11 @@ SENDERS = ADDRS + ['']
 HEADERS = [b'Subject: plain\r\nFrom: a@x.test\r\n', b'Subject: 8-bit caf\xc3\xa9 \xe9\r\nX-A: 1\r\n',
            b'Subject: folded\r\n line two\r\n\tline three\r\nX-Long: ' + b'x' * 60 + b'\r\n']
 BODIES = [b'', b'a', b'a\r\n', b'.\r\n', b'..\r\n.a\r\n', b'\r\n.\r\n', b'a\nb\rc\r\n', b'.', b'\r\n\r\n', b'caf\xc3\xa9 \xe9\xff\r\n',
-          b'x' * 70 + b'\r\n', b'line\r\n.\r\nQUIT\r\n']
+          b'x' * 70 + b'\r\n', b'line\r\n.\r\nQUIT\r\n', b'first\n.second after a bare LF\nlast\r\n', b'\n.\n', b'a\r.b\r\n']
 EXTS = ['PIPELINING', '8BITMIME', 'SMTPUTF8', 'SIZE', 'AUTH']
 
 RULE = ('address sweep: 9 senders x 26 recipient lists (1..3 addresses incl. quoted local parts, UTF-8, duplicates) x 2 bodies; '
-        'content sweep: 3 header blocks x 12 bodies x 2 address sets; each x SMTP server configurations (every single extension '
+        'content sweep: 3 header blocks x 15 bodies x 2 address sets; each x SMTP server configurations (every single extension '
         'dropped, all, none, SIZE=50, AUTH, STARTTLS, HELO fallback, connection re-use, 7-bit conversion with an encoder) and x '
         'LMTP and HTTP transports.  Non-trivial = envelope with a quoted/UTF-8/null address, 8-bit or dot-leading content, or '
         'a configuration that cannot carry it.')
@@ -261,7 +261,7 @@ def judge_smtp(cfg, env, outcome, captured, info):
 
 
 # ------------------------------------------------------------------ LMTP
-def run_lmtp_hop(env):
+def run_lmtp_hop(env, reuse=False):
     res = {}
     peers = []
     with World(Chooser(), max_steps=5000) as w:
@@ -274,10 +274,15 @@ def run_lmtp_hop(env):
             peers.append(p)
             gevent.spawn(p.run)
             return c
-        relay = StaticLmtpRelay('lda.test', 24, socket_creator=creator, ehlo_as='relay.test', context=VContext())
+        relay = StaticLmtpRelay('lda.test', 24, socket_creator=creator, ehlo_as='relay.test', context=VContext(),
+                                idle_timeout=5.0 if reuse else None)
 
         def go():
             try:
+                if reuse:
+                    # a first, fully accepted message on the same connection
+                    first = make_env('first@x.test', ['p@x.test', 'q@x.test'], HEADERS[0], b'first\r\n')
+                    relay.attempt(first, 0)
                 res['o'] = ('returned', relay.attempt(env, 0))
             except gevent.GreenletExit:
                 raise
@@ -298,10 +303,12 @@ def judge_lmtp(env, outcome, peers):
     if whole.startswith('raised:other'):
         return [(dict(base, kind='non-relay-exception', exception=whole.split(':')[-1]), desc)]
     out = []
-    tx = [t for p in peers for t in p.transactions if t['data'] is not None]
+    tx = [t for p in peers for t in p.transactions if t['data'] is not None and t['sender'] != b'first@x.test']
     if len(tx) != 1:
         return [(dict(base, kind='not-delivered'), desc + ' transactions %r' % len(tx))]
     t = tx[0]
+    if not all(c == 'delivered' for c in per.values()):
+        out.append((dict(base, kind='reported-result-differs'), desc + ' although the LMTP server accepted every recipient'))
     if t['sender'].decode('utf-8') != env.sender:
         out.append((dict(base, kind='sender-changed'), desc + ' peer saw %r' % t['sender']))
     if [r.decode('utf-8') for r, ok in t['rcpts']] != list(env.recipients):
@@ -428,6 +435,7 @@ def configs(tier, seed):
                 cfgs.append({'t': 'smtp', 'cfg': i, 'sweep': sweep, 'k': k, 'of': 2})
     for sweep in ('addr', 'content'):
         cfgs.append({'t': 'lmtp', 'sweep': sweep})
+        cfgs.append({'t': 'lmtp', 'sweep': sweep, 'reuse': True})
         cfgs.append({'t': 'http', 'sweep': sweep})
     return cfgs
 
@@ -459,8 +467,10 @@ def run_config(cfg, tier, seed):
         for i, (s, rl, h, b) in enumerate(items):
             env = make_env(s, rl, h, b)
             if cfg['t'] == 'lmtp':
-                o, peers = run_lmtp_hop(env.copy())
+                o, peers = run_lmtp_hop(env.copy(), reuse=cfg.get('reuse', False))
                 vs = judge_lmtp(env, o, peers)
+                if cfg.get('reuse') and len(peers) != 1:
+                    res.count('lmtp_reuse_opened_second_connection')
                 res.count('lmtp_hops')
             else:
                 o, cap, errors = run_http_hop(env.copy())
@@ -470,7 +480,7 @@ def run_config(cfg, tier, seed):
             res.outcome((cfg['t'], classify(o, env)[1]))
             res.interesting((cfg['t'], s, tuple(rl), b))
             for sig, msg in vs:
-                res.violation(sig, msg, {'t': cfg['t'], 'env': [s, rl, b2s(h), b2s(b)]})
+                res.violation(sig, msg, {'t': cfg['t'], 'reuse': cfg.get('reuse', False), 'env': [s, rl, b2s(h), b2s(b)]})
             if i % 200 == 0:
                 res.sample({'transport': cfg['t'], 'sender': s, 'recipients': rl, 'body': b2s(b)})
     return res.as_dict()
@@ -495,7 +505,7 @@ def replay(rep):
         for o, cap in outcomes:
             vs += judge_smtp(sc, env, o, cap, info)
     elif rep['t'] == 'lmtp':
-        o, peers = run_lmtp_hop(env.copy())
+        o, peers = run_lmtp_hop(env.copy(), reuse=rep.get('reuse', False))
         vs = judge_lmtp(env, o, peers)
     else:
         o, cap, errors = run_http_hop(env.copy())
